@@ -362,3 +362,13 @@ silent("C07", "cost-rescaled-guarded", E(LOT, "transport_plan", "    initialize_
        "rescaling under a non-zero test of the scale")
 silent("C07", "cost-halved", E(LOT, "transport_plan", "    initialize_cost(cost, graph, node_arc_data.cost)", "    initialize_cost(cost / 2.0, graph, node_arc_data.cost)"),
        "division by a non-zero constant")
+
+# --- C19: difference kernel content
+fire("C19", "difference-sign-swapped", "R19.4", [E(WK, "difference_kernel", "result[i, start + i * stride] = -1", "result[i, start + i * stride] = 1"),
+                                                E(WK, "difference_kernel", "result[i, start + i * stride + step] = 1", "result[i, start + i * stride + step] = -1")],
+     "x[c] - x[c + step] instead of x[c + step] - x[c]", allow_error=True)
+fire("C19", "difference-gap-is-stride", "R19.4", E(WK, "difference_kernel", "result[i, start + i * stride + step] = 1", "result[i, start + i * stride + stride] = 1"),
+     "gap between the two entries is the stride, not the step")
+fire("C19", "difference-transformer-width", "R19.4", E(SW, "SequentialDifferenceTransformer.fit", "window_width=self.stride + 1,", "window_width=self.stride,"),
+     "window too narrow for a difference over `stride` positions")
+silent("C19", "difference-commuted", E(WK, "difference_kernel", "result[i, start + i * stride + step] = 1", "result[i, step + stride * i + start] = 1"), "same column, operands commuted")
